@@ -487,11 +487,16 @@ def check_valid(style, s, seq, classes=None, only=None):
     for t in seq:
         tree_flags(t, flags)
         tree_vars(style, t, leafvars)
+    first = {}
     for U in subsets(flags):
+        if only is not None and only[0] == "inspect":
+            first[tuple(U)] = dump(d.evaluate_depset(U))
+            continue
         if only is not None and list(U) != list(only[1]):
             continue
         e = d.evaluate_depset(U)
         de = dump(e)
+        first[tuple(U)] = de
         if any(has_cond(x) for x in de):
             out.append(("sem", U, {}, f"{style}: evaluate_depset({list(U)}) of {s!r} still has a conditional: {str(e)!r}"))
             continue
@@ -527,6 +532,34 @@ def check_valid(style, s, seq, classes=None, only=None):
                     f"{'satisfied' if got[i] == '1' else 'not satisfied'} (truth tables over leaf subsets: expected {exp} got {got})",
                 )
             )
+    # history variant (differential oracle): reading the inspection attributes of a freshly parsed, equal
+    # structure before evaluating must not change what evaluation yields
+    if only is None or only[0] == "inspect":
+        d2 = real_parse(style, s)
+        try:
+            d2.node_conds, d2.known_conditionals, d2.has_conditionals
+        except Exception as ex:
+            return out + [("inspect", None, {}, f"{style}: inspecting conditionals of {s!r} raised {type(ex).__name__}: {ex}")]
+        for U in subsets(flags):
+            if only is not None and list(U) != list(only[1]):
+                continue
+            if tuple(U) not in first:
+                continue
+            e2 = d2.evaluate_depset(U)
+            if dump(e2) != first[tuple(U)]:
+                if classes is not None:
+                    classes["inspect-changed-evaluation"] = classes.get("inspect-changed-evaluation", 0) + 1
+                out.append(
+                    (
+                        "inspect",
+                        U,
+                        {},
+                        f"{style}: {s!r} under USE={list(U)}: after reading node_conds/known_conditionals evaluate_depset "
+                        f"gives {str(e2)!r}, without it {str(d.evaluate_depset(U))!r}",
+                    )
+                )
+            elif classes is not None:
+                classes["inspect-same"] = classes.get("inspect-same", 0) + 1
     return out
 
 
